@@ -99,7 +99,7 @@ def compile_all(bdir, builds):
             open(os.path.join(specinc, dst), "w").write(t)
     for b in builds:
         fsrcs, fdefs = FLAVOR_SRCS[b.flavor]
-        if b.whitebox:
+        if b.whitebox and b.flavor != "spec":
             fsrcs = fsrcs[1:]
         srcs = list(COMMON_SRCS) + fsrcs + (CDS_SRCS if b.cds else []) + b.extra_repo
         objs = []
@@ -110,9 +110,10 @@ def compile_all(bdir, builds):
             tasks.append((["gcc"] + flags + ["-c", os.path.join(REPO, "src", s), "-o", obj], obj))
         if b.flavor == "spec":
             flags = flags + ["-I" + specinc]
-            obj = os.path.join(bdir, "%s__vflavor_spec.o" % b.name)
-            objs.append(obj)
-            tasks.append((["gcc"] + flags + ["-c", os.path.join(VERIF, "vrt", "vflavor_spec.c"), "-o", obj], obj))
+            if not b.whitebox:      # white-box: the harness includes vflavor_spec.c itself (access to static state)
+                obj = os.path.join(bdir, "%s__vflavor_spec.o" % b.name)
+                objs.append(obj)
+                tasks.append((["gcc"] + flags + ["-c", os.path.join(VERIF, "vrt", "vflavor_spec.c"), "-o", obj], obj))
         hobj = os.path.join(bdir, "%s__harness.o" % b.name)
         objs.append(hobj)
         fl = "-DFLAVOR_%s" % (b.flavor or "none").upper()
